@@ -12,3 +12,10 @@ Arguments Ok {A} a. Arguments Err {A} e.
 
 (* the four blocks of get_parameters, named so that the generated table can state their order *)
 Inductive group := GPositional | GVararg | GKwonly | GKwarg.
+
+(* the tests of handle_function, named so that the generated table can state their order; what passes all of them
+   is an implementation *)
+Inductive branch := BProperty | BOverload | BAccessor.
+(* enumerations.py Kind, as far as scopes go *)
+Inductive skind := KModule | KClass | KFunction.
+Definition skind_eqb a b := match a, b with KModule, KModule | KClass, KClass | KFunction, KFunction => true | _, _ => false end.
